@@ -822,13 +822,18 @@ def inject_error(rng, spec, kind):
         for mi, ts in mods:
             for t in ts:
                 for p in t['params']:
-                    if p.get('dtype') in ('int', 'dict', 'list', 'float'):
+                    if p.get('dtype') in ('int', 'dict', 'list', 'float', 'bool'):
                         sites.append((mi, t, p))
         if not sites:
             return None
         mi, t, p = rng.choice(sites)
         nic = p.get('name_in_config') or p['name']
-        bad = {'int': 'not-an-int', 'float': 'not-a-float', 'dict': ['a', 'list'], 'list': {'a': 'dict'}}[p['dtype']]
+        bad = {'int': 'not-an-int', 'float': 'not-a-float', 'dict': ['a', 'list'], 'list': {'a': 'dict'}, 'bool': 'not-a-bool'}[p['dtype']]
+        if p['dtype'] in ('int', 'bool') and rng.random() < 0.6 and not p.get('drop_default'):
+            # a value of the wrong type that compares EQUAL to the parameter's default (1.0 for an int default 1, 0 for a bool default False)
+            if not isinstance(p.get('default'), (int, bool)) or isinstance(p.get('default'), bool) != (p['dtype'] == 'bool'):
+                p['default'] = rng.choice([1, 2, 7]) if p['dtype'] == 'int' else rng.choice([False, True])
+            bad = float(p['default']) if p['dtype'] == 'int' else int(p['default'])
         fname = spec['fnames'][mi]
         for pd in spec['files'][fname]['parts'].values():
             pd.setdefault('values', {})[nic] = bad
